@@ -242,6 +242,9 @@ def mutant_jobs(prop, repo):
     model = Model(repo)
     rp = _rule_props()
     jobs = []
+    # whole-tree twin: every module re-emitted from its syntax tree (comments gone, quotes, line breaks and parentheses
+    # normalised) - nothing a rule looks at may depend on layout
+    jobs.append(("twin", "reformat:whole-tree", ("*", "ast-roundtrip")))
     for kind, jid, rule_id, rel, src in generate(model):
         try:
             ast.parse(src)
